@@ -56,6 +56,10 @@ var c03Probes = []c03Src{
 // under different names (a comparison that forgets which label carried which value confuses them)
 var c03Equal = []string{"e"}
 
+// third scenario: TWO rules with the same source and target matchers that differ only in their equal list
+// (same instance / same cluster): an alert is inhibited if either rule applies
+var c03MoreEqual [][]string
+
 var c03Sources2 = []c03Src{
 	{"Q1", model.LabelSet{"alertname": "Q1", "s": "1", "e": "1"}},           // f missing
 	{"Q2", model.LabelSet{"alertname": "Q2", "s": "1", "f": "1"}},           // e missing
@@ -124,13 +128,17 @@ func c03RefInhibited(firing []model.LabelSet, probe model.LabelSet) (bool, map[m
 		if !isSrc(s) {
 			continue
 		}
-		same := true
-		for _, l := range c03Equal { // every equal label, by name; missing counts as empty
-			if string(s[model.LabelName(l)]) != string(probe[model.LabelName(l)]) {
-				same = false
+		any := false
+		for _, eq := range append([][]string{c03Equal}, c03MoreEqual...) { // one rule per equal list
+			same := true
+			for _, l := range eq { // every equal label, by name; missing counts as empty
+				if string(s[model.LabelName(l)]) != string(probe[model.LabelName(l)]) {
+					same = false
+				}
 			}
+			any = any || same
 		}
-		if !same {
+		if !any {
 			continue
 		}
 		if isSrc(probe) && isTgt(s) { // two-sided target is not inhibited by a two-sided source
@@ -161,7 +169,13 @@ func c03Run(t *testing.T, evs []c03Ev, h []int, wantKey bool) (res seqx.Result) 
 			TargetMatchers: amcommoncfg.Matchers{mustMatcher(labels.MatchEqual, "t", "1")},
 			Equal:          c03Equal,
 		}
-		ih := NewInhibitor(prov, []amcommoncfg.InhibitRule{rule}, logger, eventrecorder.NopRecorder())
+		rules := []amcommoncfg.InhibitRule{rule}
+		for _, eq := range c03MoreEqual {
+			r2 := rule
+			r2.Equal = eq
+			rules = append(rules, r2)
+		}
+		ih := NewInhibitor(prov, rules, logger, eventrecorder.NopRecorder())
 		go ih.run(ctx) // the subscription loop of Run(), without the 15m source-cache GC tickers (GC is an explicit event)
 		synctest.Wait()
 		var obs []string
@@ -188,7 +202,9 @@ func c03Run(t *testing.T, evs []c03Ev, h []int, wantKey bool) (res seqx.Result) 
 			case ev.adv > 0:
 				time.Sleep(ev.adv)
 			case ev.gc:
-				ih.rules[0].scache.GC()
+				for _, r := range ih.rules {
+					r.scache.GC()
+				}
 			}
 			synctest.Wait()
 			time.Sleep(time.Millisecond) // API calls never share an instant
@@ -287,13 +303,17 @@ func TestVerifC03(t *testing.T) {
 		{"inhibitor-5src-pruned", 5, 4, 6, true},
 		{"inhibitor-3src-all", 3, 4, 5, false},
 		{"inhibitor-two-equal-labels", 3, 4, 6, true},
+		{"inhibitor-two-rules-same-matchers", 3, 3, 5, false},
 	}
 	deadline := rep.Deadline(10 * time.Minute)
 	src1, probes1 := c03Sources, c03Probes
 	for _, c := range cfgs {
-		c03Sources, c03Probes, c03Equal = src1, probes1, []string{"e"}
+		c03Sources, c03Probes, c03Equal, c03MoreEqual = src1, probes1, []string{"e"}, nil
 		if c.part == "inhibitor-two-equal-labels" {
 			c03Sources, c03Probes, c03Equal = c03Sources2, c03Probes2, []string{"e", "f"}
+		}
+		if c.part == "inhibitor-two-rules-same-matchers" {
+			c03Sources, c03Probes, c03Equal, c03MoreEqual = c03Sources2, c03Probes2, []string{"e"}, [][]string{{"f"}}
 		}
 		evs := c03Alphabet(c.nsrc)
 		if rp := rep.ReplaySpec(); rp != nil {
